@@ -48,13 +48,13 @@ def judge(ck, pid, trace_events, label, work):
         txt = bytes(e.get("text", [])).decode("latin1") if "text" in e else ""
         ck.violation("%s %s: %s; input %r; %s" % (e["op"], e.get("fmt"), why, txt[:300], e.get("detail", "")[:200]),
                      {"kind": "formats-event", "event": e, "why": why})
-    scans = [e for e in trace_events if e["op"] == "scan"]
+    scans = [e for e in trace_events if e["op"] in ("scan", "alnread", "alnwrite")]
     if scans:
-        sd = [l for l in v.get("drift", []) if trace_events[l - 1]["op"] == "scan"]
-        ck.extra["extension_scanner_events"] = ck.extra.get("extension_scanner_events", 0) + len(scans)
-        ck.extra["extension_scanner_drift"] = ck.extra.get("extension_scanner_drift", 0) + len(sd)
+        sd = [l for l in v.get("drift", []) if trace_events[l - 1]["op"] in ("scan", "alnread", "alnwrite")]
+        ck.extra["extension_events"] = ck.extra.get("extension_events", 0) + len(scans)
+        ck.extra["extension_drift"] = ck.extra.get("extension_drift", 0) + len(sd)
         if sd:
-            vlib.log("  [note] extension (Scanner.tla): %d of %d scans differ from the specification (drift, no verdict); "
+            vlib.log("  [note] extension (Scanner.tla/AlignIO.tla): %d of %d scanner/alignio events differ from the specification (drift, no verdict); "
                      "first: %s" % (len(sd), len(scans), json.dumps(trace_events[sd[0] - 1])[:300]))
         v["drift"] = [l for l in v.get("drift", []) if l not in set(sd)]
     if v.get("drift"):
@@ -132,6 +132,13 @@ def run_formats(ck, tier, pid):
             if not r.violated:
                 raise vlib.Infra("negative control (Scanner reading on after an error) not refuted")
             ck.mc("ScannerNeg (extension)", r, "a Scanner that forgets its stored error is refuted")
+            r = vlib.tlc("Formats", "AlignIO", "AlignIOMC.cfg", workers=2, timeout=300)
+            vlib.tlc_expect_ok(r, "AlignIOMC")
+            ck.mc("AlignIOMC (extension)", r, "alignio.Reader: no record lost or duplicated across failed Reads; <=4 outcomes, <=4 calls")
+            r = vlib.tlc("Formats", "AlignIO", "AlignIONeg.cfg", workers=2, timeout=300)
+            if not r.violated:
+                raise vlib.Infra("negative control (alignio dropping rows on error) not refuted")
+            ck.mc("AlignIONeg (extension)", r, "a reader that drops the rows added before an error is refuted")
         ck.exhaustive = True
         # (B) the files of the bounded model through the real readers
         tr = os.path.join(work, "emitted-read.ndjson")
